@@ -13,8 +13,8 @@ import itertools, json, random
 from core import Case
 
 PROP = 'C13'
-COQ_TARGETS = ['theories/BipFacts.vo', 'theories/IpNetFacts.vo']
-COQ_IMPORTS = 'From Bac Require Import Base Bip IpNet.'
+COQ_TARGETS = ['theories/BipFacts.vo', 'theories/IpNetFacts.vo', 'theories/BipDelivFacts.vo', 'theories/BipDelivTie.vo']
+COQ_IMPORTS = 'From Bac Require Import Base Bip IpNet BipDeliv.'
 RULE = ('node cases: every B/IP node kind x every BVLL function (0..11) x unicast/broadcast arrival x state grid (BDT with/without self, '
         '/32 and /24 masks, FDT 0..3 entries incl. the sender, foreign status -2/-1/0/0x30, matching / non-matching BBMD address, '
         'with/without upper layer) plus the API calls (indication unicast/broadcast, register, unregister, timers); '
@@ -22,6 +22,8 @@ RULE = ('node cases: every B/IP node kind x every BVLL function (0..11) x unicas
         'network cases: seeded layouts of 1..5 subnets behind an IPRouter, 0..1 BBMD and 0..3 ordinary nodes per subnet, 0..4 foreign devices '
         '(TTL 1..300), full (/32 two-hop, /24 one-hop, mixed) and partial BDTs, scripts of broadcasts from every node interleaved with '
         'registration, renewal, expiry (link cut), unregistration, table deletion and Read-FDT probes.  '
+        'deliv cases: seeded configurations of 1..8 BBMD subnets, 0..5 ordinary nodes each, 0..6 registered foreign devices, uniform or per-peer mixed entry styles, '
+        'full or partial tables: the deliveries of a broadcast from up to 12 origins, implementation vs BipDeliv.broadcast (the semantics of the all-size theorem).  '
         'non-trivial = the event produces at least one outbound frame, delivery or state change; distinct by (layer, input).')
 TRUSTED = ['models coq/theories/Bip.v (after bvllservice.py:342-1072) and IpNet.v (after vlan.py:28-282) written by hand; tie = correspondence',
            'the harness multiplexer shim (after bvllservice.UDPMultiplexer / tests/test_bvll/helpers.py FauxMultiplexer) replaces UDP sockets',
@@ -650,8 +652,14 @@ class Net:
             self.nodes.append(ent)
         run_until(0.0)
 
+    FRAME_CAP = 6000      # datagrams per script item; honest items stay below ~1500 (20 s of 1 s renewals)
+
     def _frame(self, li, pdu):
         s, d = pdu.pduSource, pdu.pduDestination
+        if len(self.frame_times) > self.FRAME_CAP:
+            # a forwarding loop: stop at once instead of waiting for the task watchdog
+            _TM[0].tasks[:] = []
+            raise Watchdog('more than %d datagrams in one script item' % self.FRAME_CAP)
         self.log.append((None, [2, li, ip_int(s[0]), s[1], ip_int(d[0]), d[1]] + frame_canon(pdu.pduData)))
         self.frame_times.append((ms(NOW[0]), self.log[-1][1]))
 
@@ -1055,7 +1063,7 @@ def interleave(groups):
 
 
 def cases(rng, tier):
-    return interleave([node_cases(rng, tier), hist_cases(rng, tier), net_cases(rng, tier)])
+    return interleave([node_cases(rng, tier), hist_cases(rng, tier), net_cases(rng, tier), deliv_cases(rng, tier)])
 
 
 # ------------------------------------------------------------------ direct, implementation-only predicate
@@ -1334,37 +1342,59 @@ def scen_unlisted(rng, stats):
     return bk.failures
 
 
+def _guard(fn, failures, stats, what, layout=None):
+    """run one scenario; a forwarding loop (watchdog) is a failing input of the termination kind"""
+    try:
+        failures += fn()
+    except Watchdog as e:
+        stats['watchdog'] += 1
+        failures.append({'kind': 'forwarding-loop', 'scenario': what, 'layout': layout, 'detail': str(e)})
+
+
 def direct(rng, tier, focus=()):
-    import collections
+    import collections, time
     stats = collections.Counter()
     failures = []
     nontriv = 0
     big = tier == 'thorough'
+    t_start = time.time()
+    budget = 900 if big else 150          # seconds; only ever reached on a broken tree
+
+    def late():
+        if time.time() - t_start > budget or len(failures) > 3000:
+            stats['cut-short'] += 1
+            return True
+        return False
     for k in range(400 if big else 60):
         layout = gen_layout(rng, wf=True)
         if layout['style'] == 'mixed':
             consistent_mixed(layout, rng)
-        fs = scen_sweep(rng, layout, stats)
-        failures += fs
+        if late():
+            break
+        _guard(lambda: scen_sweep(rng, layout, stats), failures, stats, 'sweep', layout)
         stats['layouts'] += 1
         stats['style-' + layout['style']] += 1
     for k in range(100 if big else 15):     # partial tables: no duplicates, no echo, true source only
+        if late():
+            break
         layout = gen_layout(rng, wf=True, partial=True)
-        failures += scen_sweep(rng, layout, stats)
+        _guard(lambda: scen_sweep(rng, layout, stats), failures, stats, 'sweep-partial', layout)
         stats['layouts-partial'] += 1
     for k in range(300 if big else 50):
         layout = gen_layout(rng, wf=True, max_sub=3)
         if layout['style'] == 'mixed':
             consistent_mixed(layout, rng)
-        failures += scen_lifecycle(rng, layout, stats)
+        if late():
+            break
+        _guard(lambda: scen_lifecycle(rng, layout, stats), failures, stats, 'lifecycle', layout)
         stats['lifecycles'] += 1
     for ttl in ([1, 2, 3, 5, 10, 30, 60] if big else [1, 2, 5, 30]):
-        failures += scen_renewal(rng, stats, ttl)
+        _guard(lambda: scen_renewal(rng, stats, ttl), failures, stats, 'renewal')
         stats['renewal-runs'] += 1
-    failures += scen_unlisted(rng, stats)
-    for d in focus:
-        if isinstance(d, dict) and d.get('layer') == 'net' and d['layout'].get('wf'):
-            failures += scen_sweep(rng, d['layout'], stats)
+    _guard(lambda: scen_unlisted(rng, stats), failures, stats, 'unlisted')
+    for d in list(focus)[:10]:
+        if isinstance(d, dict) and d.get('layer') == 'net' and d['layout'].get('wf') and not late():
+            _guard(lambda: scen_sweep(rng, d['layout'], stats), failures, stats, 'focus', d['layout'])
     ev = stats['broadcasts'] + stats['renewal-runs']
     return failures, {'evaluations': ev, 'distinct_nontrivial': stats['broadcasts'], 'exhaustive': False,
                       'histogram': dict(stats),
@@ -1403,3 +1433,90 @@ def _tup(x):
     if isinstance(x, list):
         return tuple(_tup(y) for y in x)
     return x
+
+
+# ------------------------------------------------------------------ delivery-tree semantics (BipDeliv.v) against the implementation
+def gen_deliv_layout(rng, big=False):
+    """BBMD subnets of any number, ordinary nodes, foreign devices on one BBMD-less subnet; per peer one table-entry
+    style; full or partial tables.  Returns (layout, homes)."""
+    k = rng.randrange(1, 9 if big else 6)
+    lans, nodes = [], []
+    style = {}
+    for i in range(k):
+        plen = rng.choice([24, 24, 25, 16])
+        base = ip_int('10.%d.%d.0' % (i + 1, 0 if plen == 16 else i + 1))
+        lans.append((base, plen))
+    mode = rng.choice(['two-hop', 'one-hop', 'mixed'])
+    for i in range(k):
+        style[i] = M32 if mode == 'two-hop' or (mode == 'mixed' and rng.random() < 0.5) else mask_of(lans[i][1])
+    partial = rng.random() < 0.35
+    bb = []
+    for i in range(k):
+        nodes.append({'lan': i, 'ip': lans[i][0] + 2, 'kind': 'bbmd', 'bdt': []})
+        bb.append(len(nodes) - 1)
+        for j in range(rng.randrange(0, 6 if big else 4)):
+            nodes.append({'lan': i, 'ip': lans[i][0] + 10 + j, 'kind': 'simple'})
+    for bi in bb:
+        for j, bj in enumerate(bb):
+            if partial and rng.random() < 0.4:
+                continue
+            nodes[bi]['bdt'].append((nodes[bj]['ip'], PORT, style[j]))
+        rng.shuffle(nodes[bi]['bdt'])
+    lans.append((ip_int('10.200.0.0'), 24))
+    homes = {}
+    for j in range(rng.randrange(0, 7 if big else 5)):
+        nodes.append({'lan': k, 'ip': lans[k][0] + 40 + j, 'kind': 'foreign'})
+        homes[len(nodes) - 1] = rng.choice(bb)
+    return {'lans': lans, 'nodes': nodes, 'style': 'partial' if partial else mode, 'wf': True}, homes
+
+
+def coq_acfg(layout, homes):
+    """the abstract configuration and the order of its nodes (all_rcvs): per BBMD subnet the BBMD then its ordinary
+    nodes, then the foreign devices"""
+    nodes, lans = layout['nodes'], layout['lans']
+    order, subs, keep = [], [], []
+    for i, n in enumerate(nodes):
+        if n['kind'] != 'bbmd':
+            continue
+        sub, plen = lans[n['lan']]
+        simples = [j for j, m in enumerate(nodes) if m['kind'] == 'simple' and m['lan'] == n['lan']]
+        # the mask its peers list it with (consistent per peer by construction)
+        masks = {m for b in nodes if b['kind'] == 'bbmd' for (ip, port, m) in b['bdt'] if ip == n['ip']}
+        mask = masks.pop() if masks else M32
+        bcast = (sub & mask_of(plen)) | (~mask_of(plen) & 0xFFFFFFFF)
+        subs.append('mkSub %s %d %s [%s]' % (coq_addr((n['ip'], PORT)), mask, coq_addr((bcast, PORT)),
+                                             ';'.join(coq_addr((nodes[j]['ip'], PORT)) for j in simples)))
+        order += [i] + simples
+        keep += ['(%s, %s)' % (coq_addr((n['ip'], PORT)), coq_addr((ip, port))) for ip, port, m in n['bdt']]
+    fds = []
+    for f in sorted(homes):
+        fds.append('(%s, %s)' % (coq_addr((nodes[f]['ip'], PORT)), coq_addr((nodes[homes[f]]['ip'], PORT))))
+        order.append(f)
+    return '(mkAcfg [%s] [%s] (keep_list [%s]))' % (';'.join(subs), ';'.join(fds), ';'.join(keep)), order
+
+
+def deliv_cases(rng, tier):
+    out = []
+    big = tier == 'thorough'
+    for _ in range(120 if big else 30):
+        layout, homes = gen_deliv_layout(rng, big or rng.random() < 0.3)
+        expr, order = coq_acfg(layout, homes)
+        try:
+            net = Net(layout)
+            T = Times(rng)
+            for f in sorted(homes):
+                net.step(T.after(50), ('register', f, (layout['nodes'][homes[f]]['ip'], PORT), 30))
+            origins = list(range(len(order)))
+            if len(origins) > (12 if big else 6):
+                origins = sorted(rng.sample(origins, 12 if big else 6))
+            for oi in origins:
+                pid = payload_id((0x6000 + oi).to_bytes(2, 'big'))
+                recs = net.step(T.after(100), ('bcast', order[oi], pid))
+                dl = sorted([layout['nodes'][r[1]]['ip'], PORT] + r[3:5] + r[5:8] + [r[8]] for r in recs if r[0] == 1 and r[2] == 1)
+                exp = [1, len(dl)] + [x for d in dl for x in d]
+                out.append(Case('deliv-' + layout['style'], 'canon_deliv %s %d %d' % (expr, oi, pid), exp,
+                                key=('deliv', json.dumps(layout, sort_keys=True), oi), nontrivial=len(dl) > 0,
+                                desc={'layer': 'deliv', 'layout': layout, 'homes': {str(k): v for k, v in homes.items()}, 'origin': order[oi]}))
+        except Watchdog:
+            out.append(Case('deliv-watchdog', 'canon_deliv %s 0 1' % expr, [1, 17], key=('deliv-wd', expr), desc={'layer': 'deliv', 'layout': layout}))
+    return out
